@@ -3,157 +3,447 @@ import UF.Proofs.ProgBasic
   One atomic action (`step`): what it preserves.  Every lemma is by cases on the program counter.
 -/
 namespace UF.Prog
-variable {R : Type}
+variable {R Re : Type}
 
-theorem step_q (env : Env R) (s : State R) (t : Thread R) : (step env s t).2.q = t.q := by
-  rcases t with ⟨q, pc, req, todo, acc⟩
-  cases pc with
-  | start => cases q <;> simp [step]
-  | get idx => simp only [step]; split <;> rfl
-  | read idx => simp only [step]; split <;> (try split) <;> simp
-  | put idx r => simp only [step]; split <;> rfl
-  | comp r => simp only [step]; split <;> simp
-  | fin => cases q <;> rfl
-  | done => rfl
+/-- `step` with the thread taken apart (the shape all case analyses start from). -/
+theorem step_def (env : Env R Re) (s : State R Re) (t : Thread R) : step env s t = stepG (fun _ => true) env s t := rfl
 
-theorem step_closed (env : Env R) (s : State R) (t : Thread R) : (step env s t).1.closed = s.closed := by
-  rcases t with ⟨q, pc, req, todo, acc⟩
-  cases pc with
-  | start => cases q <;> simp [step]
-  | get idx => simp only [step]; split <;> rfl
-  | read idx => simp only [step]; split <;> (try split) <;> rfl
-  | put idx r => simp only [step]; split <;> rfl
-  | comp r => simp only [step]; split <;> rfl
-  | fin => cases q <;> rfl
-  | done => rfl
+theorem step_q (env : Env R Re) (s : State R Re) (t : Thread R) : (step env s t).2.q = t.q := by
+  rcases t with ⟨q, pc, req, todo, acc, stage⟩
+  cases pc <;> simp only [step, stepG] <;> repeat' split
+  all_goals simp
 
-theorem step_pc_ne_start (env : Env R) (s : State R) (t : Thread R) : (step env s t).2.pc ≠ .start := by
-  rcases t with ⟨q, pc, req, todo, acc⟩
-  cases pc with
-  | start => cases q <;> simp [step, advance_pc_ne_start]
-  | get idx => simp only [step]; split <;> simp
-  | read idx => simp only [step]; split <;> (try split) <;> simp [advance_pc_ne_start]
-  | put idx r => simp only [step]; split <;> simp
-  | comp r => simp only [step]; exact advance_pc_ne_start _
-  | fin => cases q <;> simp [step]
-  | done => simp [step]
+theorem step_closed (env : Env R Re) (s : State R Re) (t : Thread R) : (step env s t).1.closed = s.closed := by
+  rcases t with ⟨q, pc, req, todo, acc, stage⟩
+  cases pc <;> simp only [step, stepG] <;> repeat' split
+  all_goals rfl
 
-/-- Guarantee: every action of every thread preserves the cache invariant. -/
-theorem step_cacheInv {env : Env R} {s : State R} {t : Thread R} (hc : CacheInv env s) (ht : TInv env t) :
-    CacheInv env (step env s t).1 := by
-  rcases t with ⟨q, pc, req, todo, acc⟩
+theorem step_pc_ne_start (env : Env R Re) (s : State R Re) (t : Thread R) : (step env s t).2.pc ≠ .start := by
+  rcases t with ⟨q, pc, req, todo, acc, stage⟩
+  cases pc <;> simp only [step, stepG] <;> repeat' split
+  all_goals first | exact advance_pc_ne_start _ | simp
+
+theorem step_req {env : Env R Re} {s : State R Re} {t : Thread R} (hs : t.pc ≠ .start) :
+    (step env s t).2.req = t.req := by
+  rcases t with ⟨q, pc, req, todo, acc, stage⟩
+  cases pc <;> simp only [step, stepG] <;> repeat' split
+  all_goals first | exact absurd rfl hs | simp
+
+theorem step_stage {env : Env R Re} {s : State R Re} {t : Thread R} (hs : t.pc ≠ .start) (hm : t.pc ≠ .mid) :
+    (step env s t).2.stage = t.stage := by
+  rcases t with ⟨q, pc, req, todo, acc, stage⟩
+  cases pc <;> simp only [step, stepG] <;> repeat' split
+  all_goals first | exact absurd rfl hs | exact absurd rfl hm | simp
+
+/-- The cache changes only by an insertion at a key that was absent. -/
+theorem step_cache (env : Env R Re) (s : State R Re) (t : Thread R) :
+    (step env s t).1.cache = s.cache ∨
+      ∃ idx r, cacheLookup s.cache idx = none ∧ (step env s t).1.cache = cacheInsert s.cache idx r := by
+  rcases t with ⟨q, pc, req, todo, acc, stage⟩
   cases pc with
-  | start => cases q <;> exact hc
-  | get idx => simp only [step]; split <;> exact hc
-  | read idx => simp only [step]; split <;> (try split) <;> exact hc
-  | put idx r =>
-    simp only [step]; split
-    · exact hc
-    · intro i x hm
+  | put src idx r =>
+    simp only [step, stepG]; split
+    · left; rfl
+    · next h => right; exact ⟨idx, r, h, rfl⟩
+  | _ =>
+    left
+    simp only [step, stepG] <;> repeat' split
+    all_goals rfl
+
+/-- Guarantee: a cell that is set is never changed, by any action of any thread. -/
+theorem step_cellsLe (env : Env R Re) (s : State R Re) (t : Thread R) : CellsLe s (step env s t).1 := by
+  rcases t with ⟨q, pc, req, todo, acc, stage⟩
+  cases pc with
+  | prep it r =>
+    simp only [step, stepG]
+    split
+    · exact CellsLe.refl _
+    · exact CellsLe.refl _
+    · next hcell =>
+      split
+      · exact CellsLe.refl _
+      all_goals
+        intro ob hob
+        simp only [cellSet]
+        split
+        · next h => subst h; exact absurd hcell hob
+        · rfl
+  | _ =>
+    simp only [step, stepG] <;> repeat' split
+    all_goals exact CellsLe.refl _
+
+/-- Guarantee: every action of every thread preserves the invariant of the shared state. -/
+theorem step_sinv {env : Env R Re} {s : State R Re} {t : Thread R} (hs : SInv env s) (ht : TInv env t) :
+    SInv env (step env s t).1 := by
+  rcases t with ⟨q, pc, req, todo, acc, stage⟩
+  cases pc with
+  | put src idx r =>
+    simp only [step, stepG]; split
+    · exact hs
+    · refine ⟨?_, hs.2⟩
+      intro i x hm
       rcases mem_cacheInsert hm with ⟨h1, h2⟩ | h
-      · subst h1; subst h2; exact ht.put_ok _ _ rfl
-      · exact hc i x h
-  | comp r => simp only [step]; split <;> exact hc
-  | fin => cases q <;> exact hc
-  | done => exact hc
+      · subst h1; subst h2; exact ht.put_ok _ _ _ rfl
+      · exact hs.1 i x h
+  | prep it r =>
+    have hob := (ht.prep_ok it r (Or.inl rfl)).1
+    simp only [step, stepG]
+    split
+    · exact hs
+    · exact hs
+    · split
+      · exact hs
+      · next x hx =>
+        refine ⟨hs.1, ?_⟩
+        intro ob
+        simp only [cellSet]
+        split
+        · next h => subst h; right; exact ⟨r, hob, by simp [hx, Comp.cell]⟩
+        · exact hs.2 ob
+      · next hx =>
+        refine ⟨hs.1, ?_⟩
+        intro ob
+        simp only [cellSet]
+        split
+        · next h => subst h; right; exact ⟨r, hob, by simp [hx, Comp.cell]⟩
+        · exact hs.2 ob
+  | _ =>
+    simp only [step, stepG] <;> repeat' split
+    all_goals exact hs
+
+theorem filter_some_eq {p : R → Bool} {r r' : R} (h : (some r).filter p = some r') : r' = r ∧ p r = true := by
+  simp only [Option.filter] at h
+  split at h
+  · next hp => exact ⟨(Option.some.inj h).symm, hp⟩
+  · cases h
 
 /-- The thread-local invariant is preserved (relying only on `CacheInv` of the shared state). -/
-theorem step_tinv {env : Env R} {s : State R} {t : Thread R} (ht : TInv env t) :
+theorem step_tinv {env : Env R Re} {s : State R Re} {t : Thread R} (hc : CacheInv env s) (ht : TInv env t) :
     TInv env (step env s t).2 := by
-  rcases t with ⟨q, pc, req, todo, acc⟩
+  rcases t with ⟨q, pc, req, todo, acc, stage⟩
   cases pc with
   | start =>
     cases q with
     | dns d =>
-      simp only [step]
-      exact tinv_advance (by simp [Env.reqOf]; exact fill_overwrites' _ _ _)
-    | web r => simp only [step]; exact tinv_advance (by simp [Env.reqOf])
-  | get idx =>
-    have hr := ht.req_eq (by simp)
-    simp only [step]; split <;> exact ⟨fun _ => hr, by simp, by simp⟩
-  | read idx =>
-    have hr := ht.req_eq (by simp)
-    simp only [step]; split
-    · exact tinv_advance hr
+      simp only [step, stepG]
+      split
+      · next hd => constructor <;> simp_all [Query.trivial, Env.reqOf]
+      · next hd =>
+        exact tinv_advance (by simp [Env.reqOf]; exact fill_overwrites' _ _ _) (by simpa [Query.trivial] using hd)
+    | web r => simp only [step, stepG]; exact tinv_advance (by simp [Env.reqOf]) rfl
+  | get src idx =>
+    have hq := ht.nontriv (by simp) (by simp)
+    have hr := ht.req_eq (by simp) hq
+    simp only [step, stepG]; split
+    · next r h =>
+      have htr := hc _ _ (cacheLookup_mem h)
+      refine ⟨fun _ _ => hr, by simp, ?_, by simp, by simp, by simp, by simp, by simp, fun h => by rw [hq] at h; cases h⟩
+      intro src' idx' r' h'
+      simp only [PC.use.injEq] at h'
+      obtain ⟨h1, h2, h3⟩ := h'
+      obtain ⟨h4, h5⟩ := filter_some_eq h3
+      subst h1; subst h2; subst h4
+      exact ⟨htr, h5⟩
+    · exact ⟨fun _ _ => hr, by simp, by simp, by simp, by simp, by simp, by simp, by simp, fun h => by rw [hq] at h; cases h⟩
+  | read src idx =>
+    have hq := ht.nontriv (by simp) (by simp)
+    have hr := ht.req_eq (by simp) hq
+    simp only [step, stepG]; split
+    · exact ⟨fun _ _ => hr, by simp, by simp, by simp, by simp, by simp, by simp, by simp, fun h => by rw [hq] at h; cases h⟩
     · split
-      · next r h => exact ⟨fun _ => hr, by intro i x hx; simp at hx; rw [← hx.1, ← hx.2]; exact h, by simp⟩
-      · exact tinv_advance hr
-  | put idx r =>
-    have hr := ht.req_eq (by simp)
-    simp only [step]; split <;> exact ⟨fun _ => hr, by simp, by simp⟩
-  | comp r =>
-    have hr := ht.req_eq (by simp)
-    simp only [step]; apply tinv_advance; split <;> exact hr
+      · next r h =>
+        refine ⟨fun _ _ => hr, ?_, by simp, by simp, by simp, by simp, by simp, by simp, fun h => by rw [hq] at h; cases h⟩
+        intro src' idx' r' h'
+        simp only [PC.put.injEq] at h'
+        obtain ⟨_, h2, h3⟩ := h'
+        subst h2; subst h3; exact h
+      · exact ⟨fun _ _ => hr, by simp, by simp, by simp, by simp, by simp, by simp, by simp, fun h => by rw [hq] at h; cases h⟩
+  | put src idx r =>
+    have hq := ht.nontriv (by simp) (by simp)
+    have hr := ht.req_eq (by simp) hq
+    have hp := ht.put_ok _ _ _ rfl
+    simp only [step, stepG]; split
+    · next r' h =>
+      have htr := hc _ _ (cacheLookup_mem h)
+      refine ⟨fun _ _ => hr, by simp, ?_, by simp, by simp, by simp, by simp, by simp, fun h => by rw [hq] at h; cases h⟩
+      intro src' idx' r'' h'
+      simp only [PC.use.injEq] at h'
+      obtain ⟨h1, h2, h3⟩ := h'
+      obtain ⟨h4, h5⟩ := filter_some_eq h3
+      subst h1; subst h2; subst h4
+      exact ⟨htr, h5⟩
+    · refine ⟨fun _ _ => hr, by simp, ?_, by simp, by simp, by simp, by simp, by simp, fun h => by rw [hq] at h; cases h⟩
+      intro src' idx' r'' h'
+      simp only [PC.use.injEq] at h'
+      obtain ⟨h1, h2, h3⟩ := h'
+      obtain ⟨h4, h5⟩ := filter_some_eq h3
+      subst h1; subst h2; subst h4
+      exact ⟨hp, h5⟩
+  | use src idx o =>
+    have hq := ht.nontriv (by simp) (by simp)
+    have hr := ht.req_eq (by simp) hq
+    simp only [step, stepG]
+    cases o with
+    | none => simp only [if_true]; exact tinv_advance hr hq
+    | some r =>
+      have hu := ht.use_ok _ _ _ rfl
+      simp only
+      split
+      · exact tinv_advance hr hq
+      · split
+        · split <;> exact tinv_advance hr hq
+        · split
+          · next hpre =>
+            refine ⟨fun _ _ => hr, by simp, by simp, ?_, by simp, by simp, by simp, by simp, fun h => by rw [hq] at h; cases h⟩
+            intro it r' h'
+            simp only [PC.prep.injEq, reduceCtorEq, or_false] at h'
+            obtain ⟨h1, h2⟩ := h'
+            subst h1; subst h2
+            exact ⟨hu.1, hpre⟩
+          · exact tinv_advance hr hq
+  | seq k =>
+    have hq := ht.nontriv (by simp) (by simp)
+    have hr := ht.req_eq (by simp) hq
+    simp only [step, stepG]
+    split
+    · exact tinv_advance hr hq
+    · next r hk =>
+      split
+      · next hpre =>
+        refine ⟨fun _ _ => hr, by simp, by simp, ?_, by simp, by simp, by simp, by simp, fun h => by rw [hq] at h; cases h⟩
+        intro it r' h'
+        simp only [PC.prep.injEq, reduceCtorEq, or_false] at h'
+        obtain ⟨h1, h2⟩ := h'
+        subst h1; subst h2
+        exact ⟨hk, hpre⟩
+      · exact tinv_advance hr hq
+  | prep it r =>
+    have hq := ht.nontriv (by simp) (by simp)
+    have hr := ht.req_eq (by simp) hq
+    have hp := ht.prep_ok it r (Or.inl rfl)
+    have hrx : TInv env { q := q, pc := PC.rx it r, req := req, todo := todo, acc := acc, stage := stage } := by
+      refine ⟨fun _ _ => hr, by simp, by simp, ?_, by simp, by simp, by simp, by simp, fun h => by rw [hq] at h; cases h⟩
+      intro it' r' h'
+      simp only [reduceCtorEq, PC.rx.injEq, false_or] at h'
+      obtain ⟨h1, h2⟩ := h'
+      subst h1; subst h2
+      exact hp
+    simp only [step, stepG]
+    split
+    · exact hrx
+    · exact tinv_advance hr hq
+    · split
+      · exact tinv_advance hr hq
+      · exact hrx
+      · exact tinv_advance hr hq
+  | rx it r =>
+    have hq := ht.nontriv (by simp) (by simp)
+    have hr := ht.req_eq (by simp) hq
+    simp only [step, stepG]
+    split
+    · split <;> exact tinv_advance hr hq
+    · constructor <;> simp_all
+  | mid =>
+    have hq := ht.nontriv (by simp) (by simp)
+    have hr := ht.req_eq (by simp) hq
+    simp only [step, stepG]
+    exact tinv_advance hr hq
   | fin =>
-    have hr := ht.req_eq (by simp)
-    have hd := ht.fin_todo (Or.inl rfl)
-    cases q <;> exact ⟨fun _ => hr, by simp [step], fun _ => hd⟩
+    have hq := ht.nontriv (by simp) (by simp)
+    have hr := ht.req_eq (by simp) hq
+    have hd := ht.end_todo (Or.inr (Or.inl rfl))
+    have hst := ht.fin_stage rfl
+    cases q <;> simp only [step, stepG] <;>
+      exact ⟨fun _ _ => hr, by simp, by simp, by simp, fun _ => hd,
+        by simp, by simp, fun _ _ => hst, fun h => by rw [hq] at h; cases h⟩
   | done => exact ht
+  | crash => exact ht
+
+/-! ### `regex` read outside the lock -/
+
+/-- What a thread about to call `f.regex.MatchString` relies on: the `regex` of that object is set. -/
+def RxOK (s : State R Re) (t : Thread R) : Prop :=
+  ∀ it r, t.pc = .rx it r → ∃ x, s.cells it.obj = .compiled x
+
+/-- … and no action of any other thread can invalidate it. -/
+theorem rxOK_mono {s s' : State R Re} {t : Thread R} (hle : CellsLe s s') (h : RxOK s t) : RxOK s' t := by
+  intro it r hpc
+  obtain ⟨x, hx⟩ := h it r hpc
+  exact ⟨x, by rw [hle _ (by rw [hx]; simp), hx]⟩
+
+theorem rxOK_advance (s : State R Re) (t : Thread R) : RxOK s t.advance := by
+  intro it r; unfold Thread.advance; split <;> (try split) <;> simp
+
+/-- The thread's own action establishes it: `rx` is entered only from `prep`, with the cell compiled. -/
+theorem step_rxOK (env : Env R Re) (s : State R Re) (t : Thread R) : RxOK (step env s t).1 (step env s t).2 := by
+  rcases t with ⟨q, pc, req, todo, acc, stage⟩
+  cases pc with
+  | prep it r =>
+    simp only [step, stepG]
+    split
+    · next x hx =>
+      intro it' r' h'
+      simp only [PC.rx.injEq] at h'
+      obtain ⟨h1, _⟩ := h'
+      subst h1
+      exact ⟨x, hx⟩
+    · exact rxOK_advance _ _
+    · split
+      · exact rxOK_advance _ _
+      · next x hx =>
+        intro it' r' h'
+        simp only [PC.rx.injEq] at h'
+        obtain ⟨h1, _⟩ := h'
+        subst h1
+        exact ⟨x, by simp [cellSet]⟩
+      · exact rxOK_advance _ _
+  | _ =>
+    simp only [step, stepG] <;> repeat' split
+    all_goals first | exact rxOK_advance _ _ | (intro it r h; simp at h)
+
+/-! ### the bookkeeping quantity is invariant -/
+
+theorem cell_compiled {env : Env R Re} {s : State R Re} {ob : Obj} {r : R} {x : Re} (hci : CellInv env s)
+    (hob : env.objRule ob = some r) (hx : s.cells ob = .compiled x) : env.compile r = .re x := by
+  rcases hci ob with h | ⟨r', hr', hc⟩
+  · rw [hx] at h; cases h
+  · rw [hob] at hr'; cases hr'
+    rw [hx] at hc
+    cases hcr : env.compile r <;> simp [hcr, Comp.cell] at hc
+    subst hc; rfl
+
+theorem cell_invalid {env : Env R Re} {s : State R Re} {ob : Obj} {r : R} (hci : CellInv env s)
+    (hob : env.objRule ob = some r) (hx : s.cells ob = .invalid) : env.compile r = .bad := by
+  rcases hci ob with h | ⟨r', hr', hc⟩
+  · rw [hx] at h; cases h
+  · rw [hob] at hr'; cases hr'
+    rw [hx] at hc
+    cases hcr : env.compile r <;> simp [hcr, Comp.cell] at hc
+    rfl
+
+theorem verdict_not_host (env : Env R Re) {src : Src} (h : (src == Src.host) = false) (r : R) (req : Request) :
+    env.verdict src r req = env.mtch r req := by
+  simp [Env.verdict, h]
 
 /-- The first action: the refilled request is the one a fresh engine would build, and the thread's
-    bookkeeping starts at the stateless answer. -/
-theorem step_total_start (env : Env R) (s : State R) (t : Thread R) (h : t.pc = .start) :
-    total env (step env s t).2 = pureStorage env (env.reqOf t.q) (env.cands (env.reqOf t.q)) := by
-  rcases t with ⟨q, pc, req, todo, acc⟩
+    bookkeeping starts at the stateless first-stage answer. -/
+theorem step_tot_start (env : Env R Re) (s : State R Re) (t : Thread R) (h : t.pc = .start)
+    (hq : t.q.trivial = false) :
+    Tot env (step env s t).2 = target env (step env s t).2 ∧ (step env s t).2.req = env.reqOf t.q := by
+  rcases t with ⟨q, pc, req, todo, acc, stage⟩
   simp at h; subst h
   cases q with
-  | dns d => simp only [step, total_advance, Env.reqOf, fill_overwrites' env.etld1 _ d]; simp
-  | web r => simp only [step, total_advance, Env.reqOf]; simp
+  | dns d =>
+    have hd : d.hostname.isEmpty = false := by simpa [Query.trivial] using hq
+    simp only [step, stepG, hd, Bool.false_eq_true, if_false, Tot_advance, target_advance, advance_req]
+    simp [target, pure1, Env.reqOf, fill_overwrites' env.etld1 _ d]
+  | web r =>
+    simp only [step, stepG, Tot_advance, target_advance, advance_req]
+    simp [target, pure1, Env.reqOf]
 
-/-- Every later action leaves `total` unchanged, except a failed read of a closed list, which drops the
-    pending candidate. -/
-theorem step_total {env : Env R} {s : State R} {t : Thread R} (hc : CacheInv env s) (ht : TInv env t)
-    (hs : t.pc ≠ .start) :
-    total env (step env s t).2 = total env t ∨
-      (s.closed ≠ [] ∧ (total env (step env s t).2).Sublist (total env t)) := by
-  rcases t with ⟨q, pc, req, todo, acc⟩
+/-- Every later action except `mid` leaves `Tot` unchanged when no list is closed. -/
+theorem step_tot {env : Env R Re} {s : State R Re} {t : Thread R} (hs : SInv env s) (h0 : s.closed = [])
+    (ht : TInv env t) (hrx : RxOK s t) (hst : t.pc ≠ .start) (hm : t.pc ≠ .mid) :
+    Tot env (step env s t).2 = Tot env t := by
+  rcases t with ⟨q, pc, req, todo, acc, stage⟩
   cases pc with
-  | start => exact absurd rfl hs
-  | get idx =>
-    left
-    simp only [step]; split
+  | start => exact absurd rfl hst
+  | mid => exact absurd rfl hm
+  | get src idx =>
+    simp only [step, stepG]; split
     · next r h =>
-      have := hc _ _ (cacheLookup_mem h)
-      simp [total, pend, pureStorage_single_some this]
-    · simp [total, pend]
-  | read idx =>
-    simp only [step]; split
-    · next h =>
-      right
-      refine ⟨by intro h0; simp [h0] at h, ?_⟩
-      rw [total_advance]; simp only [total, pend]
-      exact List.Sublist.append (List.sublist_append_left _ _) (List.Sublist.refl _)
-    · left
-      split
-      · next r h => simp [total, pend, pureStorage_single_some h]
-      · next h => rw [total_advance]; simp [total, pend, pureStorage_single_none h]
-  | put idx r =>
-    left
-    simp only [step]; split
+      have := hs.1 _ _ (cacheLookup_mem h)
+      simp [Tot, pendAcc, pureStep, this]
+    · simp [Tot, pendAcc]
+  | read src idx =>
+    simp only [step, stepG, h0]
+    simp only [List.contains_nil, Bool.false_eq_true, if_false]
+    split
+    · next r h => simp [Tot, pendAcc, pureStep, h]
+    · next h => simp [Tot, pendAcc, pureStep, h, useStep]
+  | put src idx r =>
+    have hp := ht.put_ok _ _ _ rfl
+    simp only [step, stepG]; split
     · next r' h =>
-      -- the object found in the cache is the rule of that index, like the one just read
-      have h1 := hc _ _ (cacheLookup_mem h)
-      have h2 := ht.put_ok _ _ rfl
-      have : r' = r := Option.some.inj (h1.symm.trans h2)
-      subst this; simp [total, pend]
-    · simp [total, pend]
-  | comp r =>
-    left
-    simp only [step, total_advance]
-    by_cases hm : env.mtch r req <;> simp [hm, total, pend, one]
-  | fin => left; cases q <;> simp [step, total, pend]
-  | done => left; rfl
-
-theorem step_req {env : Env R} {s : State R} {t : Thread R} (hs : t.pc ≠ .start) :
-    (step env s t).2.req = t.req := by
-  rcases t with ⟨q, pc, req, todo, acc⟩
-  cases pc with
-  | start => exact absurd rfl hs
-  | get idx => simp only [step]; split <;> rfl
-  | read idx => simp only [step]; split <;> (try split) <;> simp
-  | put idx r => simp only [step]; split <;> rfl
-  | comp r => simp only [step]; split <;> simp
-  | fin => cases q <;> rfl
+      have h1 := hs.1 _ _ (cacheLookup_mem h)
+      have : r' = r := Option.some.inj (h1.symm.trans hp)
+      subst this; simp [Tot, pendAcc]
+    · simp [Tot, pendAcc]
+  | use src idx o =>
+    simp only [step, stepG]
+    cases o with
+    | none => simp only [if_true, Tot_advance]; simp [Tot, pendAcc, useStep]
+    | some r =>
+      simp only
+      split
+      · next hdup => rw [Tot_advance]; simp [Tot, pendAcc, useStep, hdup]
+      · next hdup =>
+        split
+        · next hh =>
+          have hv : env.verdict src r req = env.pre r req := by simp [Env.verdict, hh]
+          rw [Tot_advance]
+          by_cases hp : env.pre r req <;> simp [Tot, pendAcc, useStep, hdup, hv, hp]
+        · next hh =>
+          have hh' : (src == Src.host) = false := by simpa using hh
+          have hv := verdict_not_host env hh' r req
+          split
+          · next hp => simp [Tot, pendAcc, useStep, hdup, hv]
+          · next hp =>
+            have hmf : env.mtch r req = false := by simp [Env.mtch, hp]
+            rw [Tot_advance]; simp [Tot, pendAcc, useStep, hdup, hv, hmf]
+  | seq k =>
+    simp only [step, stepG]
+    split
+    · next hk => rw [Tot_advance]; simp [Tot, pendAcc, seqStep, hk]
+    · next r hk =>
+      split
+      · simp [Tot, pendAcc, seqStep, hk]
+      · next hp =>
+        have hmf : env.mtch r req = false := by simp [Env.mtch, hp]
+        rw [Tot_advance]; simp [Tot, pendAcc, seqStep, hk, hmf]
+  | prep it r =>
+    obtain ⟨hob, hpre⟩ := ht.prep_ok it r (Or.inl rfl)
+    simp only at hpre
+    simp only [step, stepG]
+    split
+    · simp [Tot, pendAcc]
+    · next hx =>
+      have hb := cell_invalid hs.2 hob hx
+      have hmf : env.mtch r req = false := by simp [Env.mtch, Env.patOK, hb]
+      rw [Tot_advance]; simp [Tot, pendAcc, hmf]
+    · split
+      · next hx =>
+        have hmt : env.mtch r req = true := by simp [Env.mtch, Env.patOK, hx, hpre]
+        rw [Tot_advance]; simp [Tot, pendAcc, hmt]
+      · simp [Tot, pendAcc]
+      · next hx =>
+        have hmf : env.mtch r req = false := by simp [Env.mtch, Env.patOK, hx]
+        rw [Tot_advance]; simp [Tot, pendAcc, hmf]
+  | rx it r =>
+    obtain ⟨hob, hpre⟩ := ht.prep_ok it r (Or.inr rfl)
+    simp only at hpre
+    obtain ⟨x, hx⟩ := hrx it r rfl
+    have hcr := cell_compiled hs.2 hob hx
+    have hmt : env.mtch r req = env.accepts x r req := by simp [Env.mtch, Env.patOK, hcr, hpre]
+    simp only [step, stepG, hx]
+    rw [Tot_advance]
+    by_cases ha : env.accepts x r req <;> simp [Tot, pendAcc, hmt, ha]
+  | fin => cases q <;> simp [step, stepG, Tot, pendAcc]
   | done => rfl
+  | crash => rfl
+
+/-- `mid`: the first stage is finished; if it produced the stateless first-stage answer, the work list of
+    the second stage is the stateless one. -/
+theorem step_tot_mid {env : Env R Re} {s : State R Re} {t : Thread R} (ht : TInv env t) (hm : t.pc = .mid)
+    (h : Tot env t = target env t) : Tot env (step env s t).2 = target env (step env s t).2 := by
+  rcases t with ⟨q, pc, req, todo, acc, stage⟩
+  simp at hm; subst hm
+  have h1 := ht.end_todo (Or.inl rfl)
+  have h2 := ht.mid_stage rfl
+  simp only at h1 h2
+  subst h1; subst h2
+  simp only [Tot, pendAcc, target, pureFold_nil, Bool.false_eq_true, if_false] at h
+  simp only [step, stepG, Tot_advance, target_advance]
+  simp [target, pure2, h]
 
 end UF.Prog
